@@ -45,7 +45,7 @@ class G:
             if r < 0.34:
                 out.append(ind + self.p())
             elif r < 0.62 and depth > 0:
-                out += self.try_stmt(depth - 1, ind, in_loop, in_finally)
+                out += self.try_stmt(depth - 1, ind, in_loop, in_finally, in_handler)
             elif r < 0.70 and depth > 0:
                 v = "i%d" % self.pk
                 self.pk += 1
@@ -73,12 +73,21 @@ class G:
                 out += self.block(depth - 1, ind + "    ", in_loop, in_finally, in_handler)
             else:
                 out.append(ind + self.p())
+        if not in_finally and not self.star and self.rng.random() < 0.10:
+            # an unconditional jump as the last statement of the block (the block "is a terminator" for the code generator);
+            # never lexically inside finally (quarantine F6)
+            ch = ["return %d" % self.pk, "raise %s(%d)" % (self.rng.choice(["E1", "E2", "E3"]), self.pk)]
+            if in_loop:
+                ch += ["break", "continue"]
+            if in_handler:
+                ch += ["raise", "raise"]
+            out.append(ind + self.rng.choice(ch))
         return out
 
-    def try_stmt(self, depth, ind, in_loop, in_finally):
+    def try_stmt(self, depth, ind, in_loop, in_finally, in_handler=False):
         out = [ind + "try:"]
         out.append(ind + "    " + self.p())
-        out += self.block(depth, ind + "    ", in_loop, in_finally)
+        out += self.block(depth, ind + "    ", in_loop, in_finally, in_handler)
         has_handler = False
         if self.rng.random() < 0.8:
             has_handler = True
@@ -105,7 +114,7 @@ class G:
                 out += self.block(depth, ind + "    ", in_loop and not self.star, in_finally, in_handler=True)
             if self.rng.random() < 0.25 and not self.star:
                 out.append(ind + "else:")
-                out += self.block(depth, ind + "    ", in_loop, in_finally)
+                out += self.block(depth, ind + "    ", in_loop, in_finally, in_handler)
         if not has_handler or self.rng.random() < 0.5:
             out.append(ind + "finally:")
             if not self.star and self.rng.random() < 0.18:
@@ -117,7 +126,7 @@ class G:
                 out.append("%s        pass" % ind)
                 return out
             out.append("%s    %s" % (ind, self.x()))
-            out += self.block(depth, ind + "    ", in_loop, True)
+            out += self.block(depth, ind + "    ", in_loop, True, in_handler)
         return out
 
 
